@@ -178,6 +178,19 @@ def cases(tier, seed):
                                req="all", order=order_, cot="dense", reuse=False, **_pat(em, BATCH3[0]))
                         c["mut"] = 1
                         out.append(c)
+    # ---- an exactly zero right-hand side that requires grad: X = 0, but dX/dB = (A - e M)^-1 is not
+    for dtype in ["f64", "c128"]:
+        for place in ("dense_leaf", "mf_leaf", "add_two"):
+            for (em, ed) in emodes_for(dtype):
+                if ed == "real" and dtype == "c128":
+                    continue
+                for (fwd, bck) in [("custom_exactsolve", "exactsolve"), ("bicgstab", "cg"), ("cg", "bicgstab"),
+                                   ("exactsolve", "default")]:
+                    for order_ in ["1", "1cg", "2"]:
+                        c = mk(plane="subset", place=place, fwd=fwd, bck=bck, E=em, Edtype=ed, dtype=dtype, n=3, ncols=2,
+                               req="all", order=order_, cot="dense", reuse=False, **_pat(em, BATCH3[0]))
+                        c["bzero"] = 1
+                        out.append(c)
     # ---- the same operator objects were used for an ordinary solve + backward before the judged call
     for dtype in ["f64", "c128"]:
         for place in ("dense_leaf", "mf_leaf", "mf_leaf_mv", "add_two", "adj", "view_two"):
@@ -414,7 +427,7 @@ def build(cfg):
         else:
             raise KeyError(place)
     # ---- B, E
-    b = leaf("B", randn(tuple(bB) + (n, ncols), dt, g), "B")
+    b = leaf("B", randn(tuple(bB) + (n, ncols), dt, g) * (0.0 if cfg.get("bzero") else 1.0), "B")
     e = None
     if bE is not None:
         ev = sc.make_E(espec, ncols, bE, cfg["Edtype"] == "complex", dt, g)
